@@ -1,15 +1,54 @@
 // REPLAY_SOURCES: opm/input/eclipse/Units/UnitSystem.cpp
+// REPLAY_SEARCH (the init<System> obligations carry no input: the driver compares string dimensions with the measure tables)
 // Replays a refuted to_si / from_si obligation: the measure comes from the verifier's counterexample; the table
 // pointers of the counterexample are symbolic table ids, so all four deck unit systems are tried, with the
 // counterexample's value (when the trace carries it) and a few fixed probe values.
 #include "replay.hpp"
 #include <opm/input/eclipse/Units/UnitSystem.hpp>
+#include <map>
 #include <sstream>
 #include <vector>
 using Opm::UnitSystem;
 int main(int argc, char** argv)
 {
     Replay r(argc, argv);
+    // obligations of the init<System> string tables ("us_initPVT_M/ensures dim_Transmissibility"): the string dimension
+    // must agree with the measure table of the same unit system (for the dimensions that have a measure counterpart)
+    {
+        const std::string& ob = r.obligation;
+        const auto p0 = ob.find("us_init"), p1 = ob.find("ensures dim");
+        if (ob.find("bounded_native_search") != std::string::npos) {
+            const std::pair<const char*, UnitSystem::measure> pairs[] = { {"Length", UnitSystem::measure::length}, {"Time", UnitSystem::measure::time}, {"Density", UnitSystem::measure::density},
+                {"Pressure", UnitSystem::measure::pressure}, {"Viscosity", UnitSystem::measure::viscosity}, {"Permeability", UnitSystem::measure::permeability},
+                {"Transmissibility", UnitSystem::measure::transmissibility}, {"LiquidSurfaceVolume", UnitSystem::measure::liquid_surface_volume},
+                {"GasSurfaceVolume", UnitSystem::measure::gas_surface_volume}, {"ReservoirVolume", UnitSystem::measure::volume}, {"Mass", UnitSystem::measure::mass}, {"Energy", UnitSystem::measure::energy} };
+            for (auto ut : {UnitSystem::UnitType::UNIT_TYPE_METRIC, UnitSystem::UnitType::UNIT_TYPE_FIELD, UnitSystem::UnitType::UNIT_TYPE_LAB, UnitSystem::UnitType::UNIT_TYPE_PVT_M}) {
+                const UnitSystem us(ut);
+                for (const auto& [nm, ms] : pairs) {
+                    const double a = us.getDimension(nm).getSIScaling(), b = us.getDimension(ms).getSIScaling();
+                    if (!Replay::close(a, b)) { std::ostringstream w; w.precision(12); w << us.getName() << ": the string dimension \"" << nm << "\" has the SI factor " << a << ", the measure table gives " << b; return r.verdict(false, w.str()); }
+                    for (double v : {0.0, 1.0, 100.5, -40.0}) if (!Replay::close(us.from_si(ms, us.to_si(ms, v)), v, 1.0)) return r.verdict(false, us.getName() + std::string(": from_si(to_si(v)) != v for measure of ") + nm);
+                }
+            }
+            return r.verdict(true, "string dimensions agree with the measure tables and from_si / to_si are inverse in all four unit systems (bounded native search)");
+        }
+        if (p0 != std::string::npos && p1 != std::string::npos) {
+            const std::string sys = ob.substr(p0 + 7, ob.find('/', p0) - p0 - 7);
+            std::string name = ob.substr(ob.find('_', p1) + 1);
+            const std::map<std::string, UnitSystem::UnitType> types = { {"METRIC", UnitSystem::UnitType::UNIT_TYPE_METRIC}, {"FIELD", UnitSystem::UnitType::UNIT_TYPE_FIELD},
+                {"LAB", UnitSystem::UnitType::UNIT_TYPE_LAB}, {"PVT_M", UnitSystem::UnitType::UNIT_TYPE_PVT_M} };
+            const std::map<std::string, UnitSystem::measure> meas = { {"Length", UnitSystem::measure::length}, {"Time", UnitSystem::measure::time}, {"Density", UnitSystem::measure::density},
+                {"Pressure", UnitSystem::measure::pressure}, {"Viscosity", UnitSystem::measure::viscosity}, {"Permeability", UnitSystem::measure::permeability},
+                {"Transmissibility", UnitSystem::measure::transmissibility}, {"LiquidSurfaceVolume", UnitSystem::measure::liquid_surface_volume},
+                {"GasSurfaceVolume", UnitSystem::measure::gas_surface_volume}, {"ReservoirVolume", UnitSystem::measure::volume}, {"Mass", UnitSystem::measure::mass}, {"Energy", UnitSystem::measure::energy} };
+            if (!types.count(sys) || !meas.count(name)) return r.verdict(true, "no native case for the string dimension " + name + " of " + sys);
+            const UnitSystem us(types.at(sys));
+            const double a = us.getDimension(name).getSIScaling(), b = us.getDimension(meas.at(name)).getSIScaling();
+            std::ostringstream w; w.precision(12);
+            w << sys << ": the string dimension \"" << name << "\" has the SI factor " << a << ", the measure table of the same system gives " << b;
+            return r.verdict(Replay::close(a, b), w.str());
+        }
+    }
     const int m = (int)r.integer("m");
     std::vector<double> probes = {0.0, 1.0, 100.5, -40.0, 373.15};
     if (r.has("val")) probes.insert(probes.begin(), r.num("val"));
